@@ -21,6 +21,7 @@ import (
 	"path"
 	"path/filepath"
 	"runtime"
+	"sort"
 	"strings"
 	"sync"
 
@@ -551,21 +552,88 @@ func stageCond(sink *hx.Sink) {
 
 func stagePutFault(sink *hx.Sink) {
 	sizes := []int{0, 1, 5, 32767, 32768, 32769, 100000}
+	type tgt struct {
+		name string
+		tree *davx.Node
+		path string
+	}
+	mk := func(target string) tgt {
+		root := davx.Dir("keep", davx.File("keep me"))
+		p := "/t"
+		switch target {
+		case "file":
+			root.Put("t", davx.File("old content that must survive"))
+		case "dir":
+			root.Put("t", davx.Dir("m", davx.File("member")))
+		case "noparent":
+			p = "/nodir/t"
+		case "underfile":
+			p = "/keep/t"
+		case "nested":
+			root.Put("sub", davx.Dir("t", davx.File("old nested")))
+			p = "/sub/t"
+		}
+		return tgt{target, davx.Dir("root", root), p}
+	}
+	var targets []tgt
+	for _, t := range []string{"absent", "file", "dir", "noparent", "underfile", "nested"} {
+		targets = append(targets, mk(t))
+	}
+
+	// Where does an upload keep its bytes while the body is being read? Probe the
+	// real handler, then plant an unrelated file under every name seen (and under
+	// the usual derived names): an upload, failing or not, must not touch it.
+	probe := davx.NewSandbox(workerDir(99), []string{"root"})
+	var planted []tgt
+	for _, t := range targets {
+		if t.name == "dir" || t.name == "noparent" || t.name == "underfile" {
+			continue
+		}
+		seen := map[string]bool{}
+		for i := 0; i < 2; i++ {
+			if err := probe.Reset(t.tree); err != nil {
+				fmt.Fprintln(os.Stderr, "dav: reset:", err)
+				os.Exit(2)
+			}
+			r := davx.NewReq("PUT", t.path)
+			r.Body = "probe"
+			for _, n := range probe.ProbeTemps(r, davx.Snapshot(probe.Dir)) {
+				seen[n] = true
+			}
+		}
+		dir, base := path.Split(t.path) // "/", "t" or "/sub/", "t"
+		for _, n := range []string{base + ".part", base + ".tmp", base + "~", "." + base + ".tmp", base + ".new", base + ".bak", "." + base + ".swp", base + ".upload", ".webdav-upload-0", "tmp"} {
+			seen[path.Join("root", dir, n)] = true
+		}
+		var names []string
+		for n := range seen {
+			names = append(names, n)
+		}
+		sort.Strings(names)
+		for _, n := range names {
+			tree := t.tree.Clone()
+			cur := tree
+			segs := strings.Split(n, "/")
+			ok := true
+			for _, sg := range segs[:len(segs)-1] {
+				if cur.Kids[sg] == nil || !cur.Kids[sg].IsDir {
+					ok = false
+					break
+				}
+				cur = cur.Kids[sg]
+			}
+			if !ok || cur.Kids[segs[len(segs)-1]] != nil {
+				continue
+			}
+			cur.Put(segs[len(segs)-1], davx.File("an unrelated stored resource"))
+			planted = append(planted, tgt{t.name + "+" + n, tree, t.path})
+		}
+	}
+	os.RemoveAll(filepath.Dir(probe.Dir))
+
 	jobs := make(chan job, 64)
 	go func() {
-		for _, target := range []string{"absent", "file", "dir", "noparent", "underfile"} {
-			root := davx.Dir("keep", davx.File("keep me"))
-			p := "/t"
-			switch target {
-			case "file":
-				root.Put("t", davx.File("old content that must survive"))
-			case "dir":
-				root.Put("t", davx.Dir("m", davx.File("member")))
-			case "noparent":
-				p = "/nodir/t"
-			case "underfile":
-				p = "/keep/t"
-			}
+		for _, t := range targets {
 			var reqs []davx.Req
 			for _, sz := range sizes {
 				body := strings.Repeat("Z", sz)
@@ -574,13 +642,68 @@ func stagePutFault(sink *hx.Sink) {
 					if k > sz || (k < 0 && k != -1) {
 						continue
 					}
-					r := davx.NewReq("PUT", p)
+					r := davx.NewReq("PUT", t.path)
 					r.Body = body
+					r.FailAfter = k
+					reqs = append(reqs, r)
+					// the same offsets as points at which the request context is cancelled
+					// (the body itself can be read to its end, or fails later)
+					if k >= 0 {
+						c := davx.NewReq("PUT", t.path)
+						c.Body = body
+						c.Cancel = k
+						reqs = append(reqs, c)
+						for _, cond := range []string{"*", `"nope"`} {
+							cc := c
+							cc.IfNoneMatch = cond
+							reqs = append(reqs, cc)
+							cm := c
+							cm.IfMatch = cond
+							reqs = append(reqs, cm)
+						}
+						if k+1 <= sz {
+							cf := c
+							cf.FailAfter = k + 1
+							reqs = append(reqs, cf)
+						}
+					}
+				}
+			}
+			// every other method with a context that is already cancelled
+			for _, m := range []string{"GET", "HEAD", "OPTIONS", "PROPFIND", "DELETE", "MKCOL", "COPY", "MOVE"} {
+				for _, p := range []string{t.path, "/keep", "/new"} {
+					r := davx.NewReq(m, p)
+					r.Cancel = 0
+					if m == "COPY" || m == "MOVE" {
+						for _, d := range []string{"/keep", "/dst", t.path} {
+							for _, ow := range []string{"", "F"} {
+								rr := r
+								rr.Dest = d
+								rr.Overwrite = ow
+								reqs = append(reqs, rr)
+							}
+						}
+					} else {
+						reqs = append(reqs, r)
+					}
+				}
+			}
+			jobs <- job{tree: t.tree, reqs: reqs}
+		}
+		for _, t := range planted {
+			var reqs []davx.Req
+			for _, sz := range []int{0, 5, 40000} {
+				for _, k := range []int{-1, 0, 3, sz} {
+					if k > sz {
+						continue
+					}
+					r := davx.NewReq("PUT", t.path)
+					r.Body = strings.Repeat("Z", sz)
 					r.FailAfter = k
 					reqs = append(reqs, r)
 				}
 			}
-			jobs <- job{tree: davx.Dir("root", root), reqs: reqs}
+			jobs <- job{tree: t.tree, reqs: reqs}
 		}
 		close(jobs)
 	}()
